@@ -23,3 +23,25 @@ kernel('isi_py.P', IsiProfile(), 'P', finder=sizes(1, 3))
 kernel('isi_pyx.P', IsiProfile(PROF, 'isi_profile_cython'), 'P', finder=sizes(1, 3))
 kernel('isi_py.B', IsiProfile(), 'B', sizes_quick=sizes(1, 2), sizes_thorough=sizes(1, 3, 4),
        bound_text='N1,N2 <= 2 (quick) / N1<=3,N2<=4 (thorough); all real spike times')
+
+# ---- C02: SPIKE kernel and its helpers
+from ..contracts.spike import GetMinDist, DistAtT, SpikeProfile  # noqa
+
+kernel('gmd_py.P', GetMinDist(), 'P', finder=[(n, s) for n in range(0, 4) for s in range(-1, n)])
+kernel('gmd_prof_pyx.P', GetMinDist(PROF, 'get_min_dist_cython', with_n=True), 'P', finder=[(n, s) for n in range(0, 4) for s in range(-1, n)])
+kernel('gmd_dist_pyx.P', GetMinDist(DIST, 'get_min_dist_cython', with_n=True), 'P', finder=[(n, s) for n in range(0, 4) for s in range(-1, n)])
+for _nm, _rel in (('py', PYB), ('prof_pyx', PROF), ('dist_pyx', DIST)):
+    kernel('dist_at_t_%s.P' % _nm, DistAtT(_rel), 'B', sizes_quick=[(False,), (True,)], sizes_thorough=[(False,), (True,)],
+           bound_text='loop-free: complete for RI in {False, True}')
+    GROUPS['dist_at_t_%s.P' % _nm].strength = 'P'
+    GROUPS['dist_at_t_%s.P' % _nm].tasks = (lambda self_: (lambda tier: [('B', (False,)), ('B', (True,))]))(None)
+
+
+def sizes_ri(lo, hi1, hi2=None):
+    return [(a, b, ri) for (a, b) in sizes(lo, hi1, hi2) for ri in (False, True)]
+
+
+kernel('spike_py.B', SpikeProfile(), 'B', sizes_quick=sizes_ri(1, 2), sizes_thorough=sizes_ri(1, 3),
+       bound_text='N1,N2 <= 2 (quick) / <= 3 (thorough), RI in {False,True}; all real spike times, MRTS >= 0')
+kernel('spike_pyx.B', SpikeProfile(PROF, 'spike_profile_cython', names=('t1', 't2')), 'B', sizes_quick=sizes_ri(1, 2),
+       sizes_thorough=sizes_ri(1, 3), bound_text='N1,N2 <= 2 (quick) / <= 3 (thorough), RI in {False,True}')
